@@ -249,6 +249,19 @@ func (it *Interp) fingerprint(s *State, to *ssa.BasicBlock) uint64 {
 		}
 	}
 	fmt.Fprintf(&sb, "opq%v|", hasOpq)
+	// the relations assumed between terms decide later comparisons (relation
+	// memory) and are what the judges read: states with different relations are
+	// different states
+	if it.Terms && len(s.rel) > 0 {
+		keys := make([]string, 0, len(s.rel))
+		for k := range s.rel {
+			keys = append(keys, k)
+		}
+		sort.Strings(keys)
+		for _, k := range keys {
+			fmt.Fprintf(&sb, "R%s=%d;", k, s.rel[k])
+		}
+	}
 	// paths with different oracle histories are never merged: the composition
 	// rules judge the result against the whole history
 	for _, ev := range s.events {
